@@ -158,6 +158,8 @@ type Env struct {
 	Leaves []Leaf
 	// KidsOf gives the built child storages of every inner node
 	KidsOf  map[*Node][]blobserver.Storage
+	// Large lists the large-blob (zip) stores of the blobpacked leaves built so far
+	Large   []*memory.Storage
 	closers []io.Closer
 }
 
@@ -280,7 +282,9 @@ func (e *Env) Build(n *Node, wrap WrapFunc) (blobserver.Storage, error) {
 		return leaf(s, "", err)
 	case "blobpacked":
 		sp := e.Loader.Add(&memory.Storage{})
-		lp := e.Loader.Add(&memory.Storage{})
+		large := &memory.Storage{}
+		e.Large = append(e.Large, large)
+		lp := e.Loader.Add(large)
 		s, err := mk("blobpacked", map[string]any{"smallBlobs": sp, "largeBlobs": lp, "metaIndex": memKV})
 		return leaf(s, "", err)
 	case "cond":
